@@ -30,6 +30,11 @@ LEVEL_TEXT = (
     "cannot do. The mapping rules are decided as index-contraction "
     "signatures. Elements built at run time (ElementGlobal family, "
     "Legendre-based, skeleton masks) are listed as not analysed.")
+LEVEL_TEXT += (
+    " Added in the hunting round (defects found by independent agents "
+    "on the unchanged tree, DESIGN.md 9.4 / 9.6): "
+    "every gbasis contracting local basis functions with einsum makes "
+    "the subscripts depend on the rank of X (or uses an ellipsis).")
 LEVEL_NOTE = (
     "Assumes numpy arithmetic on arrays is the pointwise arithmetic the "
     "polynomial translation models, numpy.einsum follows its signature, and "
